@@ -603,6 +603,10 @@ pub(super) struct PendingAcks {
     /// When `immediate_ack_required` is false, the normal behavior is to send ACK frames only when
     /// there is other data to send, or when the `MaxAckDelay` timer expires.
     immediate_ack_required: bool,
+    /// Whether the packet being processed arrived with the ECN-CE mark
+    ///
+    /// Such a packet is acknowledged immediately, but only once it is known to be ack-eliciting
+    ce_marked: bool,
     /// The number of ack-eliciting packets received since the last ACK frame was sent
     ///
     /// Once the count _exceeds_ `ack_eliciting_threshold`, an immediate ACK is required
@@ -636,6 +640,7 @@ impl PendingAcks {
     fn new() -> Self {
         Self {
             immediate_ack_required: false,
+            ce_marked: false,
             ack_eliciting_since_last_ack_sent: 0,
             non_ack_eliciting_since_last_ack_sent: 0,
             ack_eliciting_threshold: 1,
@@ -655,6 +660,22 @@ impl PendingAcks {
 
     pub(super) fn set_immediate_ack_required(&mut self) {
         self.immediate_ack_required = true;
+    }
+
+    /// The packet whose frames are about to be processed carries the ECN-CE mark
+    pub(super) fn on_ce_marked(&mut self) {
+        self.ce_marked = true;
+    }
+
+    /// The frames of the current packet have been processed
+    ///
+    /// A CE-marked packet is acknowledged immediately if it is ack-eliciting. A packet that is not
+    /// ack-eliciting never is: answering it with an ACK-only packet would make two endpoints
+    /// acknowledge each other's acknowledgements for ever.
+    pub(super) fn on_frames_processed(&mut self, ack_eliciting: bool) {
+        if mem::take(&mut self.ce_marked) && ack_eliciting {
+            self.immediate_ack_required = true;
+        }
     }
 
     pub(super) fn on_max_ack_delay_timeout(&mut self) {
